@@ -406,7 +406,7 @@ theorem filteredApply1_spec (f : Frame) (L : Nat) (wf : WF f L) (he : f.err = no
     show f.err.isSome = false
     rw [he]; rfl
   simp only [filteredApply1, hg, Bool.false_eq_true, ↓reduceIte]
-  refine ⟨?_, rfl, ?_, ?_⟩
+  refine ⟨?_, trivial, ?_, ?_⟩
   · rw [← hrow]
     unfold setColumn
     simp only [hn, Bool.not_true, Bool.false_eq_true, ↓reduceIte]
